@@ -6,6 +6,9 @@ from props import c09 as c9
 PROP_FILES = ['Properties/C07']
 TRUSTED = [
     'Coq 8.16.1 kernel incl. vm_compute; theorems C07_*: Closed under the global context. X25519 and AES-GCM are universally quantified parameters of the decision model (hypothesis in the statements: opening strips the 16-byte tag - proved of the Gallina AES-GCM, Proofs/Crypto.v gcm_open_length)',
+    'SECTION HYPOTHESIS dh_rejects_low_order (forall pv u, low_order u = true -> dh pv u = None) of C07_accepted_not_low_order / C07_session_not_low_order / C07_low_order_tls_is_web / C07_low_order_ws_is_web: the key agreement fails on small-order input, as crypto/ecdh documents ("bad X25519 remote ECDH input: low order point"). It is a THEOREM (C07_x25519_rejects_low_order, all 2^256 private keys, ladder invariant in Proofs/LowOrder.v) of the Gallina X25519 the correspondence runs; for Go\'s X25519 it is observed on every run: the driver checks that Go\'s error occurs exactly on the ephemeral values Model/LowOrder.v calls small-order (all 14 encodings x both transports, and none of the other ~11 000 values)',
+    'hypotheses dh_nonzero (a shared secret has 32 bytes and is not all-zero) and open_is_seal (whatever opens under (k, n) is the AES-GCM sealing under (k, n)) of C07_accepted_key_nonzero / C07_accepted_is_sealed are theorems of the Gallina X25519 / AES-GCM (C07_accepted_key_nonzero_x25519, C07_accepted_is_sealed_x25519_gcm have no hypothesis)',
+    'COMPUTATIONAL ASSUMPTION, not a theorem of any model: nobody computes X25519(server private key, r) without the server private key, or the private key of r together with the server PUBLIC key (the credential), and nobody produces an AES-GCM sealing without the key. The theorems reduce "unauthenticated senders are never accepted" to exactly this; the degenerate case in which the secret is predictable without any key (small-order r, secret all-zero) is excluded by theorem',
     'hand-written models coq/Model/Dispatch.v (AuthFirstPacket, decryptClientInfo, registerRandom, admin gate, ProxyBook, GetUser/GetBypassUser, AuthenticateUser, AuthoriseNewSession, GetSession, MakeObfuscator), coq/Model/Hello.v (parsers), coq/Model/FirstPacket.v',
     'correspondence: real AuthFirstPacket and real dispatchConnection (in-package driver harness/server/c07_test.go + c09_rig_test.go, fresh hand-built State per case, real localManager on a temporary bolt file, injected clock) vs the extracted OCaml model ocaml/c07_driver.ml; AES-GCM is ALWAYS computed by the Gallina model; X25519 results come from the Go run as a table keyed by the ephemeral value, and a seeded sample is recomputed with the Gallina X25519 ladder',
     'admin and proxy sessions are told apart by the dispatch.gotUser schedule point (-tags verif)',
@@ -13,6 +16,7 @@ TRUSTED = [
 ]
 ASSUMPTIONS = [
     'the sealed block binds the ephemeral value only cryptographically: "unmodified" in the oracle means random (bit 255 excepted: X25519 ignores it), session id and X25519 key share bytes are those of the genuine packet',
+    'forged first packets (oracle: never accepted): ephemeral value = each of the 14 small-order encodings and the 5 encodings that are small-order only without bit-255 masking, block sealed by the sender under the all-zero key (and under 0x01.. as a control), plaintext naming a bypass UID or the admin UID with session id 0, on both transports',
     'timestamps below 2^62 for the window theorems (time.Unix wraps beyond; the model reproduces the wrap and the run samples it)',
     'user rates are positive (rate <= 0 panics MakeValve: F8, C18); GetSession refusals (session cap) drop the connection: C15',
 ]
@@ -652,6 +656,6 @@ def replay(ctx, verdict):
 
 MANIFEST = dict(
     technique='Coq proof that the decision function accepts exactly the valid credentials (iff theorems over all packets, states and clocks), window-edge arithmetic incl. the truncation to seconds; model tied to the code by differential execution of the real AuthFirstPacket and dispatchConnection against the extracted model (Gallina AES-GCM; X25519 from a Go table, sampled with the Gallina ladder); oracle from the property text',
-    level_text='C07_sound_complete_proxy, C07_admin_gate, C07_auth_first_packet, C07_authorised_uid, C07_else_web, C07_else_no_server_byte are proved for every first packet (arbitrary bytes), every server state and clock and every X25519 / AES-GCM whose opening strips the tag; C07_window* state the strict window in nanoseconds and in whole seconds for timestamps below 2^62. The model is hand-written; every run compares it with the real code on ~11 000 (quick) variants: all single-bit flips of a firefox hello and of a WebSocket GET, sampled ones of chrome/safari, random mutations, clock offsets around both edges at nanosecond resolution, 30 authorisation variants on both transports over 7 server configurations.',
-    level_note='Trusted: Coq kernel, extraction, the Go X25519 table (sampled against the Gallina ladder), time.Time modelled, net/http+base64 black box. Unforgeability of the sealed block is computational and is probed by the flips, not proved.',
+    level_text='C07_sound_complete_proxy, C07_admin_gate, C07_auth_first_packet, C07_authorised_uid, C07_else_web, C07_else_no_server_byte are proved for every first packet (arbitrary bytes), every server state and clock and every X25519 / AES-GCM whose opening strips the tag; C07_window* state the strict window in nanoseconds and in whole seconds for timestamps below 2^62. Key agreement: X25519 is an option-valued function (error branch of crypto/ecdh); C07_x25519_rejects_low_order proves for the Gallina ladder that every small-order input is refused under every private key, C07_low_order_list that these are exactly 14 strings, C07_accepted_not_low_order(_x25519) / C07_low_order_tls_is_web / C07_low_order_ws_is_web that such packets are web traffic on both transports, C07_accepted_key_nonzero(_x25519) that the AEAD key of an accepted packet is never all-zero, C07_accepted_is_sealed(_x25519_gcm) that its block is the AES-GCM sealing under X25519(server private key, its ephemeral value). The model is hand-written; every run compares it with the real code on ~11 000 (quick) variants: all single-bit flips of a firefox hello and of a WebSocket GET, sampled ones of chrome/safari, random mutations, clock offsets around both edges at nanosecond resolution, 30 authorisation variants on both transports over 7 server configurations.',
+    level_note='Trusted: Coq kernel, extraction, the Go X25519 table (sampled against the Gallina ladder; its error set compared with the proved small-order predicate on every case), time.Time modelled, net/http+base64 black box. Unforgeability of the sealed block (nobody computes the X25519 secret / an AES-GCM sealing without a key) is computational: probed by the flips and the forged packets, not proved.',
     design_ref='DESIGN.md section 6, C07')
